@@ -29,10 +29,13 @@ RULE = ("operations: a menu of complete compile-and-match operations through the
         "and snapshots.")
 ASSUMPTIONS = ["histories are sequences of complete operations (no interleaving: JASM is single-threaded)",
                "depth bound 3 (4) for the stateless pass; the BFS is to fixpoint on the snapshot"]
-LEVEL_TEXT = ("Explicit-state model checking of the real implementation: states are canonical snapshots of the real process-global "
-              "state, transitions are real compile-and-match operations executed in forked copies of a pristine interpreter; "
-              "BFS to fixpoint plus all histories up to depth 3/4; each state's trace validated in a fresh interpreter.")
-LEVEL_NOTE = ("Trusted: fork() faithfully copies interpreter state (validated by replaying each state's trace in a fresh "
+LEVEL_TEXT = ("Model checking in two forms. (1) A TLA+ model of the global rule configuration is verified by TLC (all 647 reachable "
+              "states) and bound to the code by replaying every one of its 1566 distinct transitions on the implementation and "
+              "comparing the real configuration object with the model state. (2) Explicit-state search on the implementation "
+              "itself: states are canonical snapshots of the real process-global state, transitions are real compile-and-match "
+              "operations executed in forked copies of a pristine interpreter; BFS to fixpoint, all histories up to depth 3/4, "
+              "op^k.probe histories up to k=64/300; each BFS state's trace validated in a fresh interpreter.")
+LEVEL_NOTE = ("Trusted: TLC 1.8 and the hand-written correspondence between model values and the real global_info (mc/history.config_core); fork() faithfully copies interpreter state (validated by replaying each state's trace in a fresh "
               "interpreter); the snapshot walker for deduplication only (the stateless pass does not depend on it).")
 EXHAUSTIVE = True
 
